@@ -279,6 +279,20 @@ impl Value {
     ///
     /// This corresponds to the DWARF `DW_OP_convert` operation.
     pub fn convert(self, value_type: ValueType, addr_mask: u64) -> Result<Value> {
+        // Signed integers must not go through `to_u64` when converting to a float,
+        // because that would convert the two's complement representation.
+        let signed = match self {
+            Value::I8(value) => Some(i64::from(value)),
+            Value::I16(value) => Some(i64::from(value)),
+            Value::I32(value) => Some(i64::from(value)),
+            Value::I64(value) => Some(value),
+            _ => None,
+        };
+        match (signed, value_type) {
+            (Some(value), ValueType::F32) => return Ok(Value::F32(value as f32)),
+            (Some(value), ValueType::F64) => return Ok(Value::F64(value as f64)),
+            _ => {}
+        }
         match self {
             Value::F32(value) => Value::from_f32(value_type, value),
             Value::F64(value) => Value::from_f64(value_type, value),
